@@ -202,14 +202,24 @@ fn check(a: &Arch, pats: &[usize], mode: u8, cut: u64, st: &mut Stats, order: u6
     }
 }
 
-fn check_visitor(a: &Arch, st: &mut Stats, order: u64) {
+/// mode: 0 full reads, 1 one-byte reads, 2 three-byte reads, 3 one cut at `cut`
+fn check_visitor(a: &Arch, mode: u8, cut: u64, st: &mut Stats, order: u64) {
     if a.unsupported_at.is_some() {
         return;
     }
     st.evals += 1;
-    let case = || json!({"archive": a.label, "program": a.program, "bytes": crate::util::hex(&a.bytes), "visitor": true});
+    let case = || json!({"archive": a.label, "program": a.program, "bytes": crate::util::hex(&a.bytes), "visitor": true, "mode": mode, "cut": cut});
     let mut v = Vis::default();
-    let r = guard(|| zip::unstable::stream::ZipStreamReader::new(std::io::Cursor::new(&a.bytes[..])).visit(&mut v));
+    let p = plan();
+    p.borrow_mut().record_kinds = false;
+    match mode {
+        1 => p.borrow_mut().chunk = Some(1),
+        2 => p.borrow_mut().chunk = Some(3),
+        3 => p.borrow_mut().cuts = vec![cut],
+        _ => {}
+    }
+    let rd = InstRead { inner: Inst::new(a.bytes.clone(), p) };
+    let r = guard(|| zip::unstable::stream::ZipStreamReader::new(rd).visit(&mut v));
     match r {
         Err(pn) => {
             st.viol(format!("visitor/panic/{}", panic_site(&pn)), format!("{}: visit panicked: {pn}", a.label), case(), order);
@@ -324,7 +334,7 @@ fn replay(case: &Value, st: &mut Stats) {
     let unsupported_at = if label.contains("dd-second") || label.contains("aes-second") { Some(1) } else if label.contains("zipcrypto-first") { Some(0) } else { None };
     let a = Arch { label, bytes, seek, unsupported_at, program: case["program"].clone() };
     if case["visitor"].as_bool() == Some(true) {
-        check_visitor(&a, st, 0);
+        check_visitor(&a, case["mode"].as_u64().unwrap_or(0) as u8, case["cut"].as_u64().unwrap_or(0), st, 0);
     } else {
         let pats: Vec<usize> = case["pats"].as_array().map(|x| x.iter().map(|p| p.as_u64().unwrap_or(4) as usize).collect()).unwrap_or_default();
         check(&a, &pats, case["mode"].as_u64().unwrap_or(0) as u8, case["cut"].as_u64().unwrap_or(0), st, 0);
@@ -342,7 +352,7 @@ pub fn run(args: &Args) -> i32 {
         "E-SEQ over consumption histories. Archives: every writer program of 1 and 2 entries over a {}-entry alphabet and of 3 entries over its first 8 (files of every method, directories, symlinks, large_file entries, non-ASCII and empty names), plus 24 builder-made archives \
          (local/central extras, file comments, DOS/Unix made-by, ZIP64 local blocks, forced ZIP64 end records; and data-descriptor / ZipCrypto / AES entries for the refusal clause): {} archives. For each archive ALL 6^n per-entry consumption patterns over {{none, 1, 7, all-1, all, past-EOF}} \
          are run over a full-read stream and a 1-byte-read stream, and the 'all' pattern under one cut at every byte position (archives <= 600 bytes). Oracle: the seekable reader on the same bytes (names, sizes, methods, DOS words, content prefixes), Ok(None) after the last entry, \
-         errors for unsupported entries; visitor: files in order, then central-directory metadata (name, unix_mode, comment) once per entry in order. distinct_nontrivial = distinct (archive, pattern tuple, stream mode) executions (counted).",
+         errors for unsupported entries; visitor (over full-read, 1-byte, 3-byte and every single-cut stream): files in order, then central-directory metadata (name, unix_mode, comment) once per entry in order. distinct_nontrivial = distinct (archive, pattern tuple, stream mode) executions (counted).",
         if thorough { 16 } else { 12 },
         archs.len()
     );
@@ -377,8 +387,25 @@ pub fn run(args: &Args) -> i32 {
         }
     });
     ctx.stats.merge(s);
-    let s = par_for(archs.len() as u64, 8, |t, st| {
-        check_visitor(&archs_r[t as usize], st, (1 << 50) + t);
+    let mut vitems: Vec<(usize, u8, u64)> = vec![];
+    for (ai, a) in archs.iter().enumerate() {
+        if a.unsupported_at.is_some() {
+            continue;
+        }
+        vitems.push((ai, 0, 0));
+        if a.bytes.len() < 4096 {
+            vitems.push((ai, 1, 0));
+            vitems.push((ai, 2, 0));
+        }
+        if a.bytes.len() <= 600 {
+            for cut in 1..a.bytes.len() as u64 {
+                vitems.push((ai, 3, cut));
+            }
+        }
+    }
+    let s = par_for(vitems.len() as u64, 16, |t, st| {
+        let (ai, mode, cut) = vitems[t as usize];
+        check_visitor(&archs_r[ai], mode, cut, st, (1 << 50) + t);
     });
     ctx.stats.merge(s);
     ctx.stats.sample(json!({"archive": archs[0].label, "program": archs[0].program}));
